@@ -365,6 +365,102 @@ def check_jacobian(mname, spec, flux, rname, bc, perm, res=None):
     return out
 
 
+def ref_jacobian(disc, f):
+    """Richardson-extrapolated central-difference Jacobian of the real rhs (ordering: cell-major, equation fast) and a differentiability flag"""
+    n, neq = f.nelem, f.neq
+    dim = n * neq
+
+    def R(g):
+        with np.errstate(all="ignore"):
+            r = disc.rhs(g)
+        v = np.zeros(dim)
+        for q in range(neq):
+            v[q::neq] = np.asarray(r[q], float)
+        return v
+    J = np.zeros((dim, dim))
+    smooth = True
+    for i in range(n):
+        for q in range(neq):
+            h = 1e-6 * (np.abs(f.data[q]).max())
+            D = []
+            for hh in (h, h / 2):
+                gp, gm = f.copy(), f.copy()
+                gp.data[q][i] += hh
+                gm.data[q][i] -= hh
+                D.append((R(gp) - R(gm)) / (2 * hh))
+            J[:, i * neq + q] = (4 * D[1] - D[0]) / 3.0
+            if np.abs(D[1] - D[0]).max() > 1e-6 * (np.abs(D[0]).max() + 1e-300):
+                smooth = False
+    return J, smooth, R
+
+
+def check_nonlinear_steps(mname, spec, flux, rname, bc, perm, res=None):
+    """on a nonlinear problem every step of implicit / trapezoidal / gear solves the theta (BDF2) system linearised at the CURRENT state:
+    two consecutive steps on one object, Jacobian = derivative of the real space operator there"""
+    kind = spec[0]
+    mesh = space.mesh_spec(("w", (1.0, 0.5, 2.0, 1.0)))
+    if bc == "per":
+        bcs = ("per", "per")
+    elif kind == "burgers":
+        bcs = (("dirichlet", [0.9]), ("dirichlet", [1.6]))
+    else:
+        bcs = ("sym", "sym")
+    model, disc = space.build_1d(spec, flux, rname, mesh, bcs[0], bcs[1])
+    al = generic_alphabet(kind)
+    al = [np.array([v]) for v in (0.731, 1.294, 2.117, 1.583)] if kind == "burgers" else al + [0.5 * (al[0] + al[1]) * 1.07]
+    n = mesh.ncell
+    f0 = space.field_from_letters(model, mesh, al, perm)
+    neq = model.neq
+    dim = n * neq
+    out = []
+
+    def vec(g):
+        v = np.zeros(dim)
+        for q in range(neq):
+            v[q::neq] = g.data[q]
+        return v
+    for iname, cls in space.implicit_integrators().items():
+        th = theta_of(cls)
+        if th is None:
+            continue
+        gear = space.is_multistep(cls)
+        for cfl in (0.8, 5.0):
+            with np.errstate(all="ignore"):
+                dt = cfl * float(np.min(disc.calc_timestep(f0, 1.0)))
+            solver = cls(mesh, disc)
+            f = f0.copy()
+            prev = None
+            for step in (1, 2):
+                J, smooth, R = ref_jacobian(disc, f)
+                if not smooth:
+                    if res is not None:
+                        res.skipped += 1
+                    break
+                q0 = vec(f)
+                if gear and step == 2:
+                    want = q0 + np.linalg.solve(1.5 / dt * np.eye(dim) - J, R(f) + 0.5 * (q0 - prev) / dt)
+                else:
+                    want = q0 + np.linalg.solve(np.eye(dim) / dt - th * J, R(f))
+                with np.errstate(all="ignore"):
+                    solver.step(f, dt)
+                got = vec(f)
+                if not (np.all(np.isfinite(got)) and np.all(np.isfinite(want))):
+                    if res is not None:
+                        res.skipped += 1
+                    break
+                err = np.abs(got - want).max() / (np.abs(want - q0).max() + 1e-3 * np.abs(q0).max())
+                if res is not None:
+                    res.evals += 1
+                    res.worst("nonlinear-step-increment/relative", err)
+                # forward-difference Jacobian (error ~1e-8 x curvature) amplified by dt: measured <= 1.2e-5 over the whole space; tolerance 1e-4 (1+CFL)
+                if not err <= 1e-4 * (1 + cfl):
+                    out.append(("C06/nonlinear/%s/step%d" % (iname, step), "%s %s %s %s bc %s letters %r cfl %g: the increment of step %d differs by %.3g (relative) from the %s system "
+                                "linearised at the current state" % (iname, mname, flux, rname, bc, perm, cfl, step, err, "BDF2" if (gear and step == 2) else "theta=%g" % th)))
+                    break
+                prev = q0
+    return out
+
+
 MESHES = [("uni", 1, 1.0, 0.0), ("uni", 2, 2.0, 0.0), ("uni", 4, 1.0, -4.0), ("ref", 4, 1.0, 2.0, 1, 1), ("w", (0.5, 2.0)), ("w", (2.0, 0.5, 1.0)),
           ("w", (1.0, 0.5, 0.5, 2.0)), ("uni", 3, 3.0, 0.0), ("w", (0.5, 1.0, 2.0))]
 
@@ -401,6 +497,9 @@ def shard_jac(arg):
             res.nontrivial += 1
             for s, w in check_jacobian(mname, spec, flux, rname, bc, perm, res):
                 res.violation(s, w, {"kind": "jac", "model": mname, "spec": list(spec), "flux": flux, "recon": rname, "bc": bc, "perm": list(perm)})
+        for perm in list(itertools.permutations(range(4)))[::5]:
+            for s, w in check_nonlinear_steps(mname, spec, flux, rname, bc, perm, res):
+                res.violation(s, w, {"kind": "nl", "model": mname, "spec": list(spec), "flux": flux, "recon": rname, "bc": bc, "perm": list(perm)})
     res.sample({"model": mname, "flux": flux, "recon": rname, "bc": "per", "state_letters": [0, 2, 1, 3]}, cap=1)
     return res
 
@@ -429,4 +528,6 @@ def replay(case):
         return check_fourier(case["a"], case["recon"], case["n"])
     if k == "order":
         return check_order()
+    if k == "nl":
+        return check_nonlinear_steps(case["model"], tuple(case["spec"]), case["flux"], case["recon"], case["bc"], tuple(case["perm"]))
     return check_jacobian(case["model"], tuple(case["spec"]), case["flux"], case["recon"], case["bc"], tuple(case["perm"]))
